@@ -14,6 +14,7 @@ import (
 
 	"github.com/Masterminds/semver"
 	"github.com/cube2222/octosql/config"
+	"github.com/cube2222/octosql/helpers/atomicfile"
 	"github.com/cube2222/octosql/helpers/verifhook"
 )
 
@@ -40,8 +41,12 @@ func getAdditionalPluginRepositoryURLs() ([]string, error) {
 		return nil, fmt.Errorf("couldn't read plugin repositories directory: %w", err)
 	}
 
-	out := make([]string, len(entries))
+	out := make([]string, 0, len(entries))
 	for i := range entries {
+		if strings.HasPrefix(entries[i].Name(), ".") {
+			// Staging file of an interrupted AddRepository.
+			continue
+		}
 		data, err := os.ReadFile(filepath.Join(repositoriesDir, entries[i].Name()))
 		if err != nil {
 			return nil, fmt.Errorf("couldn't read plugin repository file: %w", err)
@@ -50,7 +55,7 @@ func getAdditionalPluginRepositoryURLs() ([]string, error) {
 		if err := json.Unmarshal(data, &entry); err != nil {
 			return nil, fmt.Errorf("couldn't decode plugin repository file: %w", err)
 		}
-		out[i] = entry.URL
+		out = append(out, entry.URL)
 	}
 
 	return out, nil
@@ -72,8 +77,8 @@ func AddRepository(ctx context.Context, url string) error {
 	if err := os.MkdirAll(repositoriesDir, 0755); err != nil {
 		return fmt.Errorf("couldn't create plugin repositories directory: %w", err)
 	}
-	verifhook.TornWrite("repository-add:write-entry", filepath.Join(repositoriesDir, repo.Slug), data)
-	if err := os.WriteFile(filepath.Join(repositoriesDir, repo.Slug), data, 0644); err != nil {
+	verifhook.TornWrite("repository-add:write-entry", atomicfile.TempPath(filepath.Join(repositoriesDir, repo.Slug)), data)
+	if err := atomicfile.WriteFile(filepath.Join(repositoriesDir, repo.Slug), data, 0644); err != nil {
 		return fmt.Errorf("couldn't write repository entry: %w", err)
 	}
 	verifhook.CrashPoint("repository-add:done")
